@@ -64,6 +64,16 @@ pub enum Call {
     /// documents: interleaved on two threads, or one after the other, each must see its own document
     ReaderRc { second: bool },
     ReaderArc { second: bool },
+    /// serialisation options differ between calls: YAML 1.2 mode on / off over keys and values spelled like
+    /// YAML 1.1 booleans
+    SerYaml12 { on: bool },
+    /// a shared graph with a custom anchor-name generator; a field's `Serialize` impl serialises another
+    /// graph to a string in between
+    SerNamedAnchorsNested,
+    /// reader input as UTF-16 under an input cap just above its size, and a one-byte reader input under a
+    /// cap of 2
+    ReaderUtf16Capped,
+    ReaderTinyCapped,
     /// the user's reader panics in the middle of an anchored document (caught by the caller)
     ReaderPanics,
     /// the user's writer panics in the middle of a shared graph with a `!!binary` scalar (caught by the caller)
@@ -91,7 +101,12 @@ pub enum Call {
     NestRecursive { k: u8, inner: Box<Call> },
 }
 
-pub const BASIC: [Call; 51] = [
+pub const BASIC: [Call; 56] = [
+    Call::SerYaml12 { on: true },
+    Call::SerYaml12 { on: false },
+    Call::SerNamedAnchorsNested,
+    Call::ReaderUtf16Capped,
+    Call::ReaderTinyCapped,
     Call::SerWriterPanics,
     Call::ReaderPanics,
     Call::SerNested,
@@ -479,6 +494,72 @@ pub fn run_call(c: &Call) -> String {
             }
             let rd = PanicAt(std::io::Cursor::new(b"a: &s shared\nb: *s\nc: &t more\nd: *t\n"), 16);
             res(guard(|| serde_saphyr::from_reader::<_, RcDoc>(rd)), |d| format!("a={}", d.a.0))
+        }
+        Call::SerYaml12 { on } => {
+            let mut m: BTreeMap<String, String> = BTreeMap::new();
+            for (k, v) in [("y", "n"), ("no", "yes"), ("On", "off"), ("plain", "word"), ("true", "null"), ("N", "~")] {
+                m.insert(k.to_string(), v.to_string());
+            }
+            let on = *on;
+            let opts = serde_saphyr::ser_options! { yaml_12: on };
+            match guard(|| serde_saphyr::to_string_with_options(&m, opts)) {
+                Ok(Ok(t)) => t,
+                Ok(Err(e)) => format!("SerErr({e})"),
+                Err(a) => format!("{a:?}"),
+            }
+        }
+        Call::SerNamedAnchorsNested => {
+            struct Inner;
+            impl Serialize for Inner {
+                fn serialize<S: serde::Serializer>(&self, s: S) -> Result<S::Ok, S::Error> {
+                    let shared = std::rc::Rc::new("inner".to_string());
+                    let v = vec![RcAnchor(shared.clone()), RcAnchor(shared)];
+                    let text = serde_saphyr::to_string(&v).map_err(|e| <S::Error as serde::ser::Error>::custom(e.to_string()))?;
+                    s.serialize_str(&text)
+                }
+            }
+            #[derive(Serialize)]
+            struct Outer {
+                a: RcAnchor<String>,
+                n: Inner,
+                b: RcAnchor<String>,
+                c: RcAnchor<String>,
+                d: RcAnchor<String>,
+            }
+            let s1 = std::rc::Rc::new("outer".to_string());
+            let s2 = std::rc::Rc::new("second".to_string());
+            let o = Outer {
+                a: RcAnchor(s1.clone()),
+                n: Inner,
+                b: RcAnchor(s1),
+                c: RcAnchor(s2.clone()),
+                d: RcAnchor(s2),
+            };
+            let opts = serde_saphyr::ser_options! { anchor_generator: Some(|id| format!("node{id}")) };
+            match guard(|| serde_saphyr::to_string_with_options(&o, opts)) {
+                Ok(Ok(t)) => t,
+                Ok(Err(e)) => format!("SerErr({e})"),
+                Err(a) => format!("{a:?}"),
+            }
+        }
+        Call::ReaderUtf16Capped | Call::ReaderTinyCapped => {
+            let (bytes, cap): (Vec<u8>, usize) = if matches!(c, Call::ReaderUtf16Capped) {
+                let b = crate::prop::c10::to_utf16("a: [1, 2, 3]\nb: é\n", false).0;
+                let l = b.len();
+                (b, l + 1)
+            } else {
+                (b"7".to_vec(), 2)
+            };
+            #[allow(deprecated)]
+            let opts = {
+                let mut o = serde_saphyr::Options::default();
+                let mut b = serde_saphyr::Budget::default();
+                b.max_reader_input_bytes = Some(cap);
+                o.budget = Some(b);
+                o
+            };
+            let rd = SimReader::new(&bytes, ReaderScript::fixed(3));
+            res(guard(|| serde_saphyr::from_reader_with_options::<_, serde_json::Value>(rd, opts)), |v| v.to_string())
         }
         Call::SerWriterPanics => {
             struct PanicAfter(usize);
